@@ -74,6 +74,18 @@ func parseWorld(initS, progsS string) concWorld {
 // the next one, as sibling tests often are (TestUser, TestUserList)
 func threadName(i int) string { return "TestT" + strings.Repeat("x", i) }
 
+// valText: the text of value v - one to three lines, so that rewriting an entry changes the line numbers of the
+// entries after it
+func valText(v int) string {
+	l := fmt.Sprintf("v%d", v)
+	if (v >= 500) != (v%2 == 0) {
+		// (the harness's "old" values are the new ones plus 500: an update of an odd value shrinks the entry by
+		// two lines, an update of an even one makes it grow by two)
+		return l + "\n" + l + "\n" + l
+	}
+	return l
+}
+
 func slotID(slot int) string { return fmt.Sprintf("%s - %d", threadName(slot/100), slot%100) }
 
 // runSchedule executes the world under `prefix` (then lowest-enabled-first); returns the effective
@@ -84,7 +96,7 @@ func runConc(w concWorld, dir string, prefix []int) (eff []int, enabledAt [][]in
 	path := filepath.Join(dir, "f.snap")
 	var sb strings.Builder
 	for _, e := range w.init {
-		fmt.Fprintf(&sb, "\n[%s]\nv%d\n---\n", slotID(e[0]), e[1])
+		fmt.Fprintf(&sb, "\n[%s]\n%s\n---\n", slotID(e[0]), valText(e[1]))
 	}
 	if len(w.init) > 0 {
 		os.WriteFile(path, []byte(sb.String()), 0o644)
@@ -97,6 +109,7 @@ func runConc(w concWorld, dir string, prefix []int) (eff []int, enabledAt [][]in
 	S.post = make(chan verifAction)
 	S.resume = make([]chan struct{}, n)
 	S.writer, S.readers = -1, 0
+	S.rheld = make([]int, n)
 	S.active = true
 	ts := make([]*concT, n)
 	pending := make([]verifAction, n)
@@ -114,7 +127,7 @@ func runConc(w concWorld, dir string, prefix []int) (eff []int, enabledAt [][]in
 		go func() {
 			for _, c := range w.progs[i] {
 				before := len(ts[i].events)
-				cfgs[[2]bool{c.canCreate, c.canUpdate}].MatchSnapshot(ts[i], fmt.Sprintf("v%d", c.val))
+				cfgs[[2]bool{c.canCreate, c.canUpdate}].MatchSnapshot(ts[i], valText(c.val))
 				if len(ts[i].events) == before {
 					ts[i].events = append(ts[i].events, "p") // no event: the call passed
 				}
@@ -141,9 +154,13 @@ func runConc(w concWorld, dir string, prefix []int) (eff []int, enabledAt [][]in
 			// sync.RWMutex prefers writers: once a goroutine has CALLED Lock (its pending action), new RLock calls
 			// wait for it - so a reader that takes the read lock a second time while a writer is queued never
 			// gets it (and the writer never gets the lock: the reader still holds it)
-			for j := 0; j < n; j++ {
-				if j != i && !finished[j] && pending[j].kind == actAcquireW {
-					return false
+			// That matters for a worker that already HOLDS a read lock (every other RLock may as well have come
+			// before the writer's call: the time between two calls of a worker is arbitrary).
+			if S.rheld[i] > 0 {
+				for j := 0; j < n; j++ {
+					if j != i && !finished[j] && pending[j].kind == actAcquireW {
+						return false
+					}
 				}
 			}
 			return S.writer == -1
@@ -177,6 +194,7 @@ func runConc(w concWorld, dir string, prefix []int) (eff []int, enabledAt [][]in
 			S.writer = choice
 		case actAcquireR:
 			S.readers++
+			S.rheld[choice]++
 		}
 		S.cur = choice
 		S.resume[choice] <- struct{}{}
@@ -212,8 +230,10 @@ func runConc(w concWorld, dir string, prefix []int) (eff []int, enabledAt [][]in
 				j++
 			}
 			v := "?"
-			if len(body) == 1 && strings.HasPrefix(body[0], "v") {
-				v = body[0][1:]
+			if len(body) >= 1 && strings.HasPrefix(body[0], "v") {
+				if n, err := strconv.Atoi(body[0][1:]); err == nil && strings.Join(body, "\n") == valText(n) {
+					v = body[0][1:]
+				}
 			}
 			if j >= len(lines) {
 				v = "torn"
